@@ -168,6 +168,17 @@ class World:
         return {"ev": "put" if by_lookup else "puttmpl", "u": u, "obj": self.objs.get(id(t), -1) if t is not None else 0,
                 "keys": self.keys(), "built": self.built}
 
+    def putfile(self, u, d, v):
+        """put_template(u, Template(filename=<dir d>/v, uri=v)) -- a file-backed template under another URI"""
+        path = os.path.join(self.dirs[d - 1], v)
+        try:
+            t = self.T0(filename=path, uri=v, lookup=self.lk)
+        except Exception:
+            return None
+        self._number(t)
+        self.lk.put_template(u, t)
+        return {"ev": "putfile", "u": u, "d": d, "v": v, "obj": self.objs.get(id(t), -1), "keys": self.keys(), "built": self.built}
+
     def _raw(self, u):
         c = self.lk._collection
         if u not in c:
@@ -178,31 +189,64 @@ class World:
 
 
 # --------------------------------------------------------------------------- V: record histories
-OPS = ["tick", "tick", "write", "write", "break", "delete", "get", "get", "get", "get", "has", "put", "puttmpl"]
+OPS = ["tick", "tick", "write", "write", "write", "break", "delete", "get", "get", "get", "get", "get", "has", "put", "puttmpl", "putfile"]
+
+
+# short scripted sequences spliced into the random histories so that multi-step situations (a reload
+# followed by another request, a vanished file, a repaired file, directory priority, ...) occur often;
+# roles: u, v = URIs, d, e = directories
+MACROS = [
+    [("write", "d", "u"), ("get", "u"), ("tick",), ("tick",), ("write", "d", "u"), ("get", "u"), ("get", "u")],
+    [("write", "d", "v"), ("putfile", "u", "d", "v"), ("get", "u"), ("tick",), ("tick",), ("write", "d", "v"), ("get", "u"), ("get", "u"), ("has", "v")],
+    [("write", "d", "u"), ("get", "u"), ("delete", "d", "u"), ("get", "u"), ("get", "u"), ("write", "d", "u"), ("get", "u")],
+    [("break", "d", "u"), ("get", "u"), ("write", "d", "u"), ("get", "u"), ("get", "u")],
+    [("write", "e", "u"), ("get", "u"), ("write", "d", "u"), ("get", "u"), ("tick",), ("tick",), ("get", "u")],
+    [("write", "d", "u"), ("get", "u"), ("tick",), ("tick",), ("break", "d", "u"), ("get", "u"), ("write", "d", "u"), ("get", "u")],
+    [("put", "u"), ("write", "d", "u"), ("get", "u"), ("tick",), ("tick",), ("get", "u")],
+    [("write", "d", "u"), ("write", "d", "v"), ("get", "u"), ("get", "v"), ("get", "u"), ("tick",), ("get", "v"), ("get", "u")],
+]
 
 
 def record(rng, n_ops, ndirs, uris, size, fsc, moddir, allow_put, base=None):
     w = World(ndirs, size, fsc, moddir, base=base)
     ev = []
-    try:
-        for _ in range(n_ops):
-            op = rng.choice(OPS)
-            u = rng.choice(uris)
-            d = rng.randrange(ndirs) + 1
-            if op == "tick":
-                ev.append(w.tick())
-            elif op in ("write", "break"):
-                ev.append(w.write(d, u, op == "write"))
-            elif op == "delete":
-                e = w.delete(d, u)
+
+    def do(op, u, d, v=None):
+        if op == "tick":
+            ev.append(w.tick())
+        elif op in ("write", "break"):
+            ev.append(w.write(d, u, op == "write"))
+        elif op == "delete":
+            e = w.delete(d, u)
+            if e:
+                ev.append(e)
+        elif op == "get":
+            ev.append(w.get(u))
+        elif op == "has":
+            ev.append(w.has(u))
+        elif op in ("put", "puttmpl") and allow_put:
+            ev.append(w.put(u, op == "put"))
+        elif op == "putfile" and allow_put and not moddir:
+            if os.path.isfile(os.path.join(w.dirs[d - 1], v)):
+                e = w.putfile(u, d, v)
                 if e:
                     ev.append(e)
-            elif op == "get":
-                ev.append(w.get(u))
-            elif op == "has":
-                ev.append(w.has(u))
-            elif op in ("put", "puttmpl") and allow_put:
-                ev.append(w.put(u, op == "put"))
+    try:
+        while len(ev) < n_ops:
+            if rng.random() < 0.12:
+                roles = {"u": rng.choice(uris), "v": rng.choice(uris), "d": rng.randrange(ndirs) + 1, "e": rng.randrange(ndirs) + 1}
+                for step in rng.choice(MACROS):
+                    a = [roles[x] for x in step[1:]]
+                    if step[0] == "tick":
+                        do("tick", None, None)
+                    elif step[0] in ("write", "break", "delete"):
+                        do(step[0], a[1], a[0])
+                    elif step[0] == "putfile":
+                        do("putfile", a[0], a[1], a[2])
+                    else:
+                        do(step[0], a[0], None)
+                continue
+            do(rng.choice(OPS), rng.choice(uris), rng.randrange(ndirs) + 1, rng.choice(uris))
     finally:
         w.close()
     return ev
@@ -250,6 +294,12 @@ def replay_behaviour(steps, ndirs, size, fsc, moddir, base=None):
                 e = w.put(last["u"], op == "put")
                 exp = {"obj": last["obj"], "keys": keys, "built": st["built"]}
                 obs = {k: e[k] for k in exp}
+            elif op == "putfile":
+                e = w.putfile(last["u"], last["d"], last["v"])
+                if e is None:
+                    return {"step": idx, "clause": "putfile-construction-failed", "op": last}
+                exp = {"obj": last["obj"], "keys": keys, "built": st["built"]}
+                obs = {k: e[k] for k in exp}
             else:
                 raise MachineryError("unknown op in behaviour: %r" % (last,))
             if exp != obs:
@@ -279,7 +329,7 @@ def mc_cfg(ndirs, uris, maxver, maxtick, size, fsc, allow_put, depth, put_served
     return ("CONSTANTS NDirs = %d  Uris = {%s}  MaxVer = %d  MaxTick = %d  Size = %d  FsChecks = %s  TPS = %d  AllowPut = %s  Depth = %d  ModDir = %s\n"
             % (ndirs, ", ".join('"%s"' % u for u in uris), maxver, maxtick, size, "TRUE" if fsc else "FALSE", TPS,
                "TRUE" if allow_put else "FALSE", depth, "TRUE" if moddir else "FALSE")
-            + MC_PROPS + ("INVARIANT PutServed\n" if put_served else "") + ("INVARIANT ServedFromOwnFile\n" if own_file else ""))
+            + MC_PROPS + ("INVARIANT PutServed\nINVARIANT PutFileServed\n" if put_served else "") + ("INVARIANT ServedFromOwnFile\n" if own_file else ""))
 
 
 def events_of_counterexample(ce):
@@ -290,12 +340,11 @@ def check(run):
     thorough = run.thorough
     # ------------------------------------------------------------------ 1. exhaustive model checking
     mcs = [  # name, ndirs, uris, maxver, maxtick, size, fsc, allow_put, depth
-        ("mc-fs-unl", 2, ["a", "b"], 3, 4, 0, True, True, 8 if not thorough else 10),
+        ("mc-fs-unl", 2, ["a", "b"], 3, 4, 0, True, False, 9 if not thorough else 11),
+        ("mc-fs-put", 1, ["a", "b"], 3, 2, 0, True, True, 7 if not thorough else 9),
         ("mc-fs-s1", 2, ["a", "b", "c"], 3, 3, 1, True, False, 8 if not thorough else 10),
         ("mc-nofs-s1", 2, ["a", "b"], 3, 3, 1, False, False, 8 if not thorough else 10),
     ]
-    if thorough:
-        mcs.append(("mc-fs-s2", 1, ["a", "b", "c", "d"], 4, 2, 2, True, False, 9))
     acts = {}
     for (name, nd, uris, mv, mt, size, fsc, ap, depth) in mcs:
         res = run.tlc("MC_Lookup", mc_cfg(nd, uris, mv, mt, size, fsc, ap, depth), name=name, coverage=True, timeout=1500)
@@ -310,7 +359,7 @@ def check(run):
     # put_string under a bounded collection: the design (as coded) admits a counterexample to PutServed
     res = run.tlc("MC_Lookup", mc_cfg(1, ["a", "b"], 2, 0, 1, True, True, 6), name="mc-put-s1")
     if res.violated:
-        if res.violated != ["PutServed"]:
+        if res.violated not in (["PutServed"], ["PutFileServed"]):
             run.spec_violation(res)
         else:
             # confirm the counterexample on the real code before calling it a finding
